@@ -1067,6 +1067,9 @@ func runC13(rc *RunCtx) {
 				}
 				rc.Cov.Cell("C13_start_built", "by-genesis")
 				e, err := StdEngine(rc, false, false, func(gs *ct.GenesisState, cfg *chain.Config) {
+					// the attester rules do not depend on the pause flags: every flag combination in turn
+					gs.SendingAndReceivingMessagesPaused.Paused = (si/3)%4&1 != 0
+					gs.BurningAndMintingPaused.Paused = (si/3)%4&2 != 0
 					gs.AttesterList = nil
 					for _, k := range keys {
 						gs.AttesterList = append(gs.AttesterList, ct.Attester{Attester: AttesterPool[k].Spell(k % 4)})
